@@ -60,6 +60,11 @@ def obligations(RC, ex, w, handler, r, log, pre, info, post):
         good = z3.And(z3.BoolVal(member), info['sig_ok'], zb(d['accept']) if not isinstance(d['accept'], bool) else z3.BoolVal(d['accept']), d['view'].e + 1 > pv.e)
         need('higher-certificate-ignored', 'a correctly signed new-view from a validator carrying an accepted certificate of a view >= the current one does not pull the replica forward to the following view',
              z3.Implies(good, z3.And(z3.BoolVal(is_ok), qv.e == d['view'].e + 1, z3.BoolVal(post['phase'] == 0))))
+        # specification refinement: the LEADER's new-view for the CURRENT view is still processed (it carries the justification
+        # the leader will propose with); only other validators' new-views for the current view are stale
+        leads = (d['view'].e + 1) % w.N == info['author'] if member else z3.BoolVal(False)
+        cur = z3.And(z3.BoolVal(member), info['sig_ok'], zb(d['accept']) if not isinstance(d['accept'], bool) else z3.BoolVal(d['accept']), d['view'].e + 1 == pv.e, leads)
+        obs.append(('C05', f'{handler}:leader-new-view-for-current-view-rejected', 'a valid new-view sent by the leader of the current view for that view is rejected instead of processed', z3.Implies(cur, z3.BoolVal(is_ok))))
     if handler == 'on_proposal':
         need('accepted-proposal-not-voted', 'a proposal was accepted but no commit vote for its view left the node',
              z3.Implies(z3.BoolVal(is_ok), z3.And(sent('ReplicaCommit', qv), z3.BoolVal(post['phase'] == 1))))
